@@ -119,11 +119,19 @@ FAMILIES = {
         ['def g1(a):\n    return 1\ndef g2(a, b):\n    return ""\nfoo = g1\n', 'def g1(a):\n    return 1\ndef g2(a, b):\n    return ""\nfoo = g2\n',
          'def g1(a):\n    return 1\ndef g2(*, k):\n    return ""\nfoo = g2\n'],
         'y = foo()\ny\nx = foo(', ['infer', 7, 1], ['get_signatures', 8, 8]),
+    # the def line and the first body statement stay, the tail (a yield) changes: parso's diff parser keeps the funcdef node
+    'generator-tail': _family(
+        ['def gen():\n    first = 1\n    yield first\n', 'def gen():\n    first = 1\n    yield ""\n',
+         'def gen():\n    first = 1\n    return [1.5]\n'],
+        'for item in gen():\n    item\ny = gen\nx = gen(', ['infer', 5, 5], ['get_signatures', 7, 8]),
     'class-init': _family(
         ['class C:\n    def __init__(self, a):\n        self.v = 1\n', 'class C:\n    def __init__(self, a, b):\n        self.v = ""\n',
          'class C:\n    pass\n\n'],
         'y = C(0).v\ny\nx = C(', ['infer', 5, 1], ['get_signatures', 6, 6]),
 }
+
+
+SIG_SAME = {'generator-tail'}       # families whose texts differ only below the signature
 
 
 def counterexample_behaviours(stdout, limit=200000):
@@ -207,6 +215,8 @@ def replay_model_behaviours(ctx, quick, rng):
     # the families must be able to tell the texts apart, else the replay is vacuous
     for fam in fams:
         for qi in (0, 1):
+            if qi == 1 and fam in SIG_SAME:
+                continue
             if len(set(fresh[fkey[(fam, t, 'p1')]]['answers'][qi][0] for t in (1, 2, 3))) < 2:
                 raise MachineryError('family %s: query %d does not distinguish the texts' % (fam, qi))
     nshard = 8
